@@ -144,7 +144,18 @@ def run_shape(shape):
             fg.b_rotations = BRot(n_b, sarr([[SR(x) for x in row] for row in Q]), None)
             arr = fg.get_full_grid_as_array()
             pos = fg.position_grid.get_position_grid_as_array()
-            helpers = [(ix, fg.get_position_index(None if ix is None else np.array(ix)), fg.get_quaternion_index(None if ix is None else np.array(ix))) for ix in idx_sets]
+            helpers = []
+            for ix in idx_sets:
+                if ix is None:
+                    helpers.append((None, fg.get_position_index(None), fg.get_quaternion_index(None), True))
+                    continue
+                arr_ix = np.array(ix)            # ONE array handed to both helpers, in both orders; it must come back untouched
+                hp = np.array(fg.get_position_index(arr_ix))
+                hq = np.array(fg.get_quaternion_index(arr_ix))
+                hq2 = np.array(fg.get_quaternion_index(arr_ix))
+                hp2 = np.array(fg.get_position_index(arr_ix))
+                same = list(arr_ix) == list(ix) and list(hp) == list(hp2) and list(hq) == list(hq2)
+                helpers.append((ix, hp, hq, same))
             return arr, pos, helpers, len(fg), len(fg.position_grid), (fg.get_b_N(), fg.get_o_N(), fg.get_t_N())
 
     n = z3.Int("n")
@@ -181,8 +192,8 @@ def run_shape(shape):
             claims.append(("position_index_of_n", ite_chain([z3.IntVal(int(x)) for x in table_p], n) == n / n_b))
             claims.append(("quaternion_index_of_n", ite_chain([z3.IntVal(int(x)) for x in table_q], n) == n % n_b))
         acc.add(prover.prove_all(path.premises + rng_n + [m >= 0, m < n_o * n_t], claims), make_cex=lambda r_: {})
-        for ix, hp, hq in helpers[1:]:
-            okh = list(map(int, hp)) == [k // n_b for k in ix] and list(map(int, hq)) == [k % n_b for k in ix]
+        for ix, hp, hq, same in helpers[1:]:
+            okh = same and list(map(int, hp)) == [k // n_b for k in ix] and list(map(int, hq)) == [k % n_b for k in ix]
             acc.structural(f"helpers_on_index_array{ix if len(ix) < 4 else '[...]'}", okh, detail=(ix, list(map(int, hp)), list(map(int, hq))), cex={"indices": ix})
     return acc.result(eng.stats, prover.stats)
 
@@ -250,8 +261,10 @@ def replay(cex):
             bad.append(f"helper {k}")
     ix = cex.get("indices")
     if ix:
-        if list(map(int, fg.get_position_index(np.array(ix)))) != [k // n_b for k in ix] or list(map(int, fg.get_quaternion_index(np.array(ix)))) != [k % n_b for k in ix]:
-            bad.append(f"helpers on {ix}")
+        a = np.array(ix)
+        hp = np.array(fg.get_position_index(a)); hq = np.array(fg.get_quaternion_index(a)); hq2 = np.array(fg.get_quaternion_index(a)); hp2 = np.array(fg.get_position_index(a))
+        if list(map(int, hp)) != [k // n_b for k in ix] or list(map(int, hq)) != [k % n_b for k in ix] or list(hp2) != list(hp) or list(hq2) != list(hq) or list(a) != list(ix):
+            bad.append(f"helpers on the same index array {ix}: positions {hp.tolist()} / {hp2.tolist()}, rotations {hq.tolist()} / {hq2.tolist()}, array afterwards {a.tolist()}")
     return {"reproduced": bool(bad), "detail": str(bad[:6])}
 
 
